@@ -4,6 +4,7 @@ import Driver.OpsEngine
 import Driver.OpsFs
 import Driver.OpsPar
 import Driver.OpsSql
+import Driver.OpsSort
 
 open Lean Df.Codec
 
@@ -21,6 +22,8 @@ def ops : List (String × (Json → R Json)) :=
    ("ejson", Df.Ops.opEjson),
    ("sched", Df.Ops.opSched),
    ("sqlhist", Df.Ops.opSqlHist),
+   ("numkey", Df.Ops.opNumKey),
+   ("sort", Df.Ops.opSort),
    ("ping", fun j => do return Json.mkObj [("ok", encPkg (← decPkg (← j.getObjVal? "pkg")))])]
 
 def handle (line : String) : String :=
